@@ -479,6 +479,27 @@ package reflect
 //@   ensures c06_norewind: $norewind
 //@   ensures 0 <= n && n <= len(b)
 
+// Descriptor lookup / construction (cache discipline: C07; construction: A-WF)
+//@ spec uf func sdFor(v reflect.Value) *structDesc
+//@ trusted func reflect.getStructDesc(rv reflect.Value) (sd *structDesc)
+//@   ensures sd != nil ==> wfSD(sd) && sd == sdFor(rv) && sdSize(sd) == (rvKind(rv) == reflect.Struct ? rvSize(rv) : rvPointeeSize(rv))
+//@ trusted func reflect.createStructDesc(rv reflect.Value) (sd *structDesc, err error)
+//@   ensures err == nil ==> sd != nil && wfSD(sd) && sd == sdFor(rv) && sdSize(sd) == (rvKind(rv) == reflect.Struct ? rvSize(rv) : rvPointeeSize(rv))
+//@   ensures err != nil ==> sd == nil
+
+// Append: the bytes appended are the wire form WS of the struct the argument designates. For a
+// pointer argument that is the pointee; for a by-value argument it is the pooled addressable copy
+// reflect.Value.Set made of it (ghost $encp is the address handed to the struct writer).
+//@ const ghost $encp = Int
+//@ func Append(b []byte, v any) (r []byte, err error)
+//@   abstract b, r
+//@   modifies $brk, $encp
+//@   after appendStruct ghost $encp = p
+//@   ensures c02_top: err == nil ==> r == WS(sdFor(rvOf(v)), M, $encp, b)
+//@   ensures c02_ptr: err == nil && rvKind(rvOf(v)) != reflect.Struct ==> $encp == anyPtr(v)
+//@   ensures c02_copy: err == nil && rvKind(rvOf(v)) == reflect.Struct ==> forall a Int :: {M[a]} $encp <= a && a < $encp + anySize(v) ==> M[a] == sel(old(M), a - $encp + anyPtr(v))
+//@   ensures c16_value: forall a Int :: {M[a]} a < old($brk) ==> M[a] == old(M[a])
+
 // ===========================================================================
 // ENCODER
 // ===========================================================================
